@@ -439,6 +439,9 @@ pub struct YamlSerializer<'a, W: Write> {
     /// Whether the pending block-string style was selected automatically (prefer_block_scalars)
     /// as opposed to being requested explicitly by wrapper types (LitStr/FoldStr variants).
     pending_str_from_auto: bool,
+    /// The last thing written was a block scalar with keep chomping (`|+` / `>+`): every empty
+    /// line after it belongs to its value.
+    last_block_keep: bool,
     /// Pending inline comment to be appended after the next scalar (block style only).
     pending_inline_comment: Option<String>,
     /// If true, emit YAML tags for simple enums that serialize to a single scalar.
@@ -497,6 +500,7 @@ impl<'a, W: Write> YamlSerializer<'a, W> {
             in_flow: 0,
             pending_str_style: None,
             pending_str_from_auto: false,
+            last_block_keep: false,
             pending_inline_comment: None,
             tagged_enums: false,
             empty_as_braces: true,
@@ -637,6 +641,7 @@ impl<'a, W: Write> YamlSerializer<'a, W> {
     /// Internal: called by most emitters before writing tokens.
     #[inline]
     fn write_indent(&mut self, depth: usize) -> Result<()> {
+        self.last_block_keep = false;
         if self.at_line_start {
             if !self.doc_started {
                 self.doc_started = true;
@@ -1172,6 +1177,7 @@ impl<'a, 'b, W: Write> Serializer for &'a mut YamlSerializer<'b, W> {
             }
             // reset auto flag after using pending style
             self.pending_str_from_auto = false;
+            self.last_block_keep = v.ends_with("\n\n");
             return Ok(());
         }
         self.write_space_if_pending()?;
@@ -1308,7 +1314,9 @@ impl<'a, 'b, W: Write> Serializer for &'a mut YamlSerializer<'b, W> {
             NAME_SPACE_AFTER => {
                 // Serialize the value, then emit an empty line after (only in block style).
                 let result = value.serialize(&mut *self)?;
-                if self.in_flow == 0 {
+                // After a keep-chomped block scalar an empty line would become part of its value.
+                let after_keep_block = std::mem::take(&mut self.last_block_keep);
+                if self.in_flow == 0 && !after_keep_block {
                     // Emit an extra blank line after the value
                     self.newline()?;
                 }
